@@ -164,6 +164,7 @@ Proof.
     split; cbn; [assumption|]. repeat (apply Forall_app; split); try assumption.
     all: match goal with |- Forall _ (match ?o with _ => _ end) => destruct o end;
       cbn in *; try apply Forall_nil; (apply Forall_cons; [assumption|apply Forall_nil]).
+  - assumption.
 Qed.
 
 Lemma run_from_wf ops : forall s, st_wf s -> Forall op_ok ops ->
@@ -527,4 +528,100 @@ Proof.
     cbn. repeat split; intros f E; inversion E; subst; auto.
     unfold ip6_next in ET. cbv zeta in ET. destruct (_ =? 0) in ET; [discriminate|].
     apply transport_of_layer in ET. destruct ET as (k & Hk & Hl). exists k. eexists. split; [exact Hk|exact Hl].
+Qed.
+
+
+(* ---------------------------------------------------------------- a reused layer object *)
+Lemma field_app_prefix (a b : list Z) off w : (off + w <= length a)%nat -> field (a ++ b) off w = field a off w.
+Proof.
+  intros H. unfold field, slice. rewrite firstn_app.
+  replace (off + w - length a)%nat with 0%nat by lia. cbn [firstn]. rewrite app_nil_r. reflexivity.
+Qed.
+
+Lemma slice_app_prefix (a b : list Z) x y : (y <= length a)%nat -> slice (a ++ b) x y = slice a x y.
+Proof.
+  intros H. unfold slice. rewrite firstn_app.
+  replace (y - length a)%nat with 0%nat by lia. cbn [firstn]. rewrite app_nil_r. reflexivity.
+Qed.
+
+Lemma table_flow_app_prefix k a b t so do w :
+  flow_table k = Some (t, so, do, w) -> (so + w <= length a)%nat -> (do + w <= length a)%nat ->
+  table_flow k (a ++ b) = table_flow k a.
+Proof.
+  intros Ht H1 H2. unfold table_flow. rewrite Ht. rewrite !field_app_prefix by assumption. reflexivity.
+Qed.
+
+(* the bytes a freshly assigned view reads are the current packet's, whatever lies behind them
+   in a reused capture buffer *)
+Lemma seq_read_overlay k pkt cap al : seq_assign k pkt = Ok (Some al) ->
+  seq_read k (overlay pkt cap) al = seq_read k pkt al.
+Proof.
+  unfold seq_assign, seq_read, overlay.
+  destruct k; try discriminate.
+  - destruct (length pkt <? 14)%nat eqn:E; [discriminate|]. intros _.
+    eapply table_flow_app_prefix; [reflexivity|cbn; lia|cbn; lia].
+  - destruct (ip4_decode pkt) eqn:E; try discriminate. intros _. apply ip4_decode_len in E.
+    eapply table_flow_app_prefix; [reflexivity|cbn; lia|cbn; lia].
+  - destruct (length pkt <? 40)%nat eqn:E; [discriminate|]. destruct (nthZ pkt 6 =? 0); [discriminate|]. intros _.
+    eapply table_flow_app_prefix; [reflexivity|cbn; lia|cbn; lia].
+  - destruct (length pkt <? 16)%nat eqn:E; [discriminate|].
+    destruct (Z.of_nat (length pkt) <? be16 pkt 4 + 6) eqn:E2; [discriminate|].
+    intros H; inversion H; subst. rewrite slice_app_prefix by lia. reflexivity.
+  - destruct (length pkt <? 20)%nat eqn:E; [discriminate|].
+    destruct (Z.of_nat (length pkt) - 12 <? nthZ pkt 11) eqn:E2; [discriminate|].
+    intros H; inversion H; subst. rewrite slice_app_prefix by lia. reflexivity.
+  - destruct (length pkt <? 12)%nat eqn:E; [discriminate|]. intros _.
+    eapply table_flow_app_prefix; [reflexivity|cbn; lia|cbn; lia].
+  - destruct (negb (tcp_in_scope pkt)); [discriminate|].
+    destruct (length pkt <? 20)%nat eqn:E; [discriminate|]. intros _.
+    eapply table_flow_app_prefix; [reflexivity|cbn; lia|cbn; lia].
+  - destruct (length pkt <? 8)%nat eqn:E; [discriminate|]. intros _.
+    eapply table_flow_app_prefix; [reflexivity|cbn; lia|cbn; lia].
+Qed.
+
+(* when the decode assigns the address fields, the flow reported next is the flow of the
+   CURRENT packet's header bytes: independent of every earlier packet, of the object's earlier
+   state and of whether the buffer is fresh or reused *)
+Lemma seq_step_current k reuse s pkt al : seq_assign k pkt = Ok (Some al) ->
+  snd (seq_step k reuse s pkt) = seq_read k pkt al.
+Proof.
+  intros H. unfold seq_step. rewrite H. cbn [snd].
+  destruct reuse.
+  - apply seq_read_overlay, H.
+  - rewrite nth_middle. reflexivity.
+Qed.
+
+Lemma slice_sub (c : list Z) a h : slice c a (a + (h - a)) = slice c a h.
+Proof.
+  destruct (Nat.le_gt_cases a h) as [H|H]; [replace (a + (h - a))%nat with h by lia; reflexivity|].
+  unfold slice. rewrite !skipn_all2; [reflexivity| |]; rewrite firstn_length; lia.
+Qed.
+
+(* ... and that flow is the one a fresh packet of that layer reports *)
+Lemma seq_read_layer k pkt al : seq_assign k pkt = Ok (Some al) -> seq_read k pkt al = layer_flow k pkt.
+Proof.
+  unfold seq_assign, seq_read, layer_flow.
+  destruct k; try discriminate.
+  - destruct (length pkt <? 14)%nat eqn:E; [discriminate|]. intros _.
+    destruct (Nat.eqb (length pkt) 0) eqn:E0; [apply Nat.eqb_eq in E0; lia|reflexivity].
+  - destruct (ip4_decode pkt) eqn:E; try discriminate. intros _. apply ip4_decode_len in E.
+    destruct (Nat.eqb (length pkt) 0) eqn:E0; [apply Nat.eqb_eq in E0; lia|reflexivity].
+  - destruct (length pkt <? 40)%nat eqn:E; [discriminate|]. destruct (nthZ pkt 6 =? 0); [discriminate|]. intros _.
+    destruct (Nat.eqb (length pkt) 0) eqn:E0; [apply Nat.eqb_eq in E0; lia|reflexivity].
+  - destruct (length pkt <? 16)%nat eqn:E; [discriminate|].
+    destruct (Z.of_nat (length pkt) <? be16 pkt 4 + 6) eqn:E2; [discriminate|].
+    intros H; inversion H; subst.
+    destruct (Nat.eqb (length pkt) 0) eqn:E0; [apply Nat.eqb_eq in E0; lia|].
+    rewrite slice_sub. reflexivity.
+  - destruct (length pkt <? 20)%nat eqn:E; [discriminate|].
+    destruct (Z.of_nat (length pkt) - 12 <? nthZ pkt 11) eqn:E2; [discriminate|].
+    intros H; inversion H; subst.
+    destruct (Nat.eqb (length pkt) 0) eqn:E0; [apply Nat.eqb_eq in E0; lia|reflexivity].
+  - destruct (length pkt <? 12)%nat eqn:E; [discriminate|]. intros _.
+    destruct (Nat.eqb (length pkt) 0) eqn:E0; [apply Nat.eqb_eq in E0; lia|reflexivity].
+  - destruct (negb (tcp_in_scope pkt)); [discriminate|].
+    destruct (length pkt <? 20)%nat eqn:E; [discriminate|]. intros _.
+    destruct (Nat.eqb (length pkt) 0) eqn:E0; [apply Nat.eqb_eq in E0; lia|reflexivity].
+  - destruct (length pkt <? 8)%nat eqn:E; [discriminate|]. intros _.
+    destruct (Nat.eqb (length pkt) 0) eqn:E0; [apply Nat.eqb_eq in E0; lia|reflexivity].
 Qed.
